@@ -10,5 +10,8 @@ CONSTANTS
   PublishAfterUnlock = FALSE
   CreatedRevalidated = TRUE
   SubSer = FALSE
+  MayCancel = FALSE
+  SnapAtCommit = FALSE
+  CollectLive = TRUE
 INVARIANT EmitSched
 CHECK_DEADLOCK FALSE
